@@ -7,6 +7,7 @@ Item   = ("lit", text)
        | ("if", cond, then, else_)           each = (wl, Value, wr)             {{#if: c | t | e }}
        | ("ifeq", a, b, then, else_)
        | ("switch", v, cases, default)       cases = [([key Values], result or None)]; default = result or None
+       | ("switchx", v, items)               items = [("bare", w) | ("kv", key_w, result_w)] - the raw argument list, '#default' is just a key
 
 Semantics (Help:Templates, Help:Extension:ParserFunctions):
   * positional arguments are bound by position and NOT trimmed; named arguments (also "1=") are trimmed, name and value;
@@ -48,6 +49,11 @@ def ser_item(it):
         return "{{#if:%s|%s|%s}}" % (ser_ws(it[1]), ser_ws(it[2]), ser_ws(it[3]))
     if k == "ifeq":
         return "{{#ifeq:%s|%s|%s|%s}}" % (ser_ws(it[1]), ser_ws(it[2]), ser_ws(it[3]), ser_ws(it[4]))
+    if k == "switchx":
+        parts = [ser_ws(it[1])]
+        for x in it[2]:
+            parts.append(ser_ws(x[1]) if x[0] == "bare" else ser_ws(x[1]) + "=" + ser_ws(x[2]))
+        return "{{#switch:" + "|".join(parts) + "}}"
     if k == "switch":
         parts = [ser_ws(it[1])]
         for keys, res in it[2]:
@@ -63,14 +69,18 @@ def ser_item(it):
     raise ValueError(k)
 
 
+import re as _re
+
+# PHP is_numeric (what MediaWiki's #ifeq/#switch use): optional sign, ASCII digits with an optional fraction, optional exponent
+_NUMERIC = _re.compile(r"^[+-]?([0-9]+(\.[0-9]*)?|\.[0-9]+)([eE][+-]?[0-9]+)?$")
+
+
 def as_num(s):
+    if not _NUMERIC.match(s):
+        return None
     try:
-        return int(s)
-    except ValueError:
-        pass
-    try:
-        return float(s)
-    except ValueError:
+        return float(s) if any(c in s for c in ".eE") else int(s)
+    except (ValueError, OverflowError):
         return None
 
 
@@ -119,6 +129,35 @@ class Interp:
         if k == "ifeq":
             a, b = self.ws(it[1], env).strip(), self.ws(it[2], env).strip()
             return self.ws(it[3] if equal(a, b) else it[4], env).strip()
+        if k == "switchx":
+            # ParserFunctions::switch, item by item ("#default" in either position, repeated, or overridden by a last bare item)
+            primary = self.ws(it[1], env).strip()
+            found = default_found = last_no_eq = False
+            default = None
+            test = ""
+            for x in it[2]:
+                if x[0] == "kv":
+                    last_no_eq = False
+                    if found:
+                        return self.ws(x[2], env).strip()
+                    test = self.ws(x[1], env).strip()
+                    if equal(primary, test):
+                        return self.ws(x[2], env).strip()
+                    if default_found or test == "#default":
+                        default = x[2]
+                        default_found = False
+                else:
+                    last_no_eq = True
+                    test = self.ws(x[1], env).strip()
+                    if equal(primary, test):
+                        found = True
+                    elif test == "#default":
+                        default_found = True
+            if last_no_eq:
+                return test
+            if default is not None:
+                return self.ws(default, env).strip()
+            return ""
         if k == "switch":
             v = self.ws(it[1], env).strip()
             cases = it[2]
